@@ -75,3 +75,11 @@ Example spec_example :
   = [$"- test_title: 942100-1"; $"  test_id: 1"; $"  desc: x"; $"- test_id: 2"; $"- test_title: 942100-2"; $"  test_id: 3"] /\
   balanced 0 0 [$"- test_title: a"; $"  test_id: 7"; $"  desc: x"; $"- test_id: 9"; $"- test_title: 942100-5"; $"  test_id: 1"].
 Proof. split; [vm_compute; reflexivity|vm_compute; repeat split; discriminate]. Qed.
+
+(* the whole file: the bytes renumber-tests writes are the spec's lines, newline-terminated, with the
+   end of the file normalised *)
+Corollary process_yaml_meets_spec limit rule contents :
+  Forall plain_line (scan_lines limit contents) -> balanced 0 0 (scan_lines limit contents) ->
+  process_yaml limit rule contents =
+  join [10] (format_eof_ws (split_on 10 (unlines (renumber_spec rule 0 0 (scan_lines limit contents))))).
+Proof. intros HF Hb. unfold process_yaml. now rewrite renumbered_file_meets_spec. Qed.
